@@ -1,7 +1,7 @@
 (* C18 — Persistent-reference hooks are called as documented and invert each other. *)
 From Coq Require Import List ZArith NArith Bool.
 From Coq.Strings Require Import Byte.
-From OgRek Require Import Base Value Reader Decoder Encoder TypingFacts HookFacts.
+From OgRek Require Import Base Value Reader Decoder Encoder Norm TypingFacts HookFacts RoundTrip.
 Import ListNotations.
 
 (* ---- Decode side: d_log is the list of Refs handed to PersistentLoad, most recent first ------- *)
@@ -67,6 +67,87 @@ Proof.
 Qed.
 Print Assumptions C18_ref_emitted.
 
-(* NOT YET PROVED (partial): that Decode with the inverse PersistentLoad applied to Encode's output
-   restores the object graph - it needs the round-trip theorem of C03.  Decided on every run by
-   decoding the encoder output again and by comparing the hook call logs with CPython's. *)
+(* ---- Encode, then Decode with the inverse hook ------------------------------------------------- *)
+
+(* The object graph as the application sees it.  norm c v is the content of v with every pointer
+   for which PersistentRef answered pid (and every explicit Ref{pid}) standing as TRef (content of
+   pid); hmap g replaces each by g (...), innermost first - g describes PersistentLoad:
+   hook_spec (Some f) g says that f, given an id with content t, either returns nil and g t is the
+   Ref itself, or returns an object whose content is g t.  For hooks that invert each other g t is
+   the application object PersistentRef mapped to the id t, so hmap g (norm c v) is the original
+   graph, and the theorem says Decode returns exactly that, at every protocol 0..5 (at protocol 0
+   norm is defined only for single-line string ids, as the encoder is), for every value of the
+   fragment, after any earlier use of the decoder and whatever follows the pickle. *)
+Theorem C18_inverse_hooks_partial : forall c pd load g v t st rest,
+  hook_spec load g ->
+  (0 <= e_proto c <= 5)%Z -> norm c v = Some t ->
+  snd (run_w (encode c v) None) = EOk /\
+  exists x st',
+    decode (dcfg_h c pd load) st (output (encode c v) ++ rest) = ((Ok x, st'), rest) /\
+    erase x = Some (hmap g t).
+Proof. exact encode_decode_hooked. Qed.
+Print Assumptions C18_inverse_hooks_partial.
+
+(* the instance every run compares with the implementation: inv_load (Model/Norm.v) is the hook
+   installed in the Go harness and in the extracted model for the inverse-hooks runs *)
+Theorem C18_registry_hook : forall c pd v t st rest,
+  (0 <= e_proto c <= 5)%Z -> norm c v = Some t ->
+  snd (run_w (encode c v) None) = EOk /\
+  exists x st',
+    decode (dcfg_h c pd (Some inv_load)) st (output (encode c v) ++ rest) = ((Ok x, st'), rest) /\
+    erase x = Some (hmap inv_g t).
+Proof. intros c pd v t st rest. exact (encode_decode_hooked c pd (Some inv_load) inv_g v t st rest inv_hook_ok). Qed.
+Print Assumptions C18_registry_hook.
+
+(* the hypotheses are satisfiable: application objects 0,1,2.. registered under the ids "a", ("b",7);
+   PersistentLoad looks the id up and keeps unknown ids as Refs *)
+Definition ex_obj (t : tval) : option N :=
+  match t with
+  | TStr [x61] => Some 0%N
+  | TTuple [TStr [x62]; TInt 7] => Some 1%N
+  | _ => None
+  end.
+Definition ex_load (idx : N) (p : val) : load_result :=
+  match erase p with
+  | Some t => match ex_obj t with Some n => LObj (VUser n) | None => LNil end
+  | None => LNil
+  end.
+Definition ex_g (t : tval) : tval := match ex_obj t with Some n => TUser n | None => TRef t end.
+Example C18_hooks_exist : hook_spec (Some ex_load) ex_g.
+Proof.
+  intros idx p t E. unfold ex_load, ex_g. rewrite E. destruct (ex_obj t) as [n|].
+  - right. exists (VUser n). split; reflexivity.
+  - left. split; reflexivity.
+Qed.
+(* a list holding two registered pointers (one id nested in a tuple), a plain value and a pointer
+   whose id the loader does not know: the decoded graph has the two objects back in place *)
+Example C18_graph :
+  let c := Build_econfig 2 false (fun _ => false) (fun _ => []) in
+  let v := RList [RPtr true (Some (RStr SPlain [x61])) (RStruct []);
+                  RInt 5;
+                  RTuple [RPtr true (Some (RTuple [RStr SPlain [x62]; RInt 7])) (RStruct [])];
+                  RPtr true (Some (RStr SPlain [x7a])) (RStruct [])] in
+  option_map (hmap ex_g) (norm c v) =
+    Some (TList [TUser 0; TInt 5; TTuple [TUser 1]; TRef (TStr [x7a])]) /\
+  match fst (fst (decode (dcfg_h c false (Some ex_load)) init_state (output (encode c v)))) with
+  | Ok x => erase x = Some (TList [TUser 0; TInt 5; TTuple [TUser 1]; TRef (TStr [x7a])])
+  | _ => False
+  end.
+Proof. vm_compute. split; reflexivity. Qed.
+
+(* the same graph shape at protocol 0, where only the string id has a form *)
+Example C18_graph_p0 :
+  let c := Build_econfig 0 false (fun _ => false) (fun _ => []) in
+  let v := RList [RPtr true (Some (RStr SPlain [x61])) (RStruct []); RInt 5;
+                  RPtr true (Some (RStr SPlain [x7a])) (RStruct [])] in
+  option_map (hmap ex_g) (norm c v) = Some (TList [TUser 0; TInt 5; TRef (TStr [x7a])]) /\
+  match fst (fst (decode (dcfg_h c false (Some ex_load)) init_state (output (encode c v)))) with
+  | Ok x => erase x = Some (TList [TUser 0; TInt 5; TRef (TStr [x7a])])
+  | _ => False
+  end.
+Proof. vm_compute. split; reflexivity. Qed.
+
+(* NOT PROVED (hence _partial): graphs that contain maps, Dicts or
+   structs encoded by value (outside norm), and the abort of Decode when the hook fails somewhere
+   inside a graph (the single step is C18_handle_ref).  Decided on every run by decoding the encoder
+   output again and by comparing the hook call logs with CPython's. *)
